@@ -148,7 +148,7 @@ def run(ctx):
         ctx.sample({"document": rb.render_doc(c["doc"], 0), "sources": hb.SOURCES, "handlers": ["native", "lxml"]})
     # the zoo through the three serializers
     xctx = XmlContext()
-    for k, obj in enumerate(zoo.instances(ctx.seed + 8, ctx.pick(150, 3000), roots=[c for c in zoo.ROOTS if c is not zoo.Mixed])):
+    for k, obj in enumerate(zoo.instances(ctx.seed + 8, ctx.pick(150, 10**7), roots=[c for c in zoo.ROOTS if c is not zoo.Mixed])):
         ctx.case(("zoo3", k))
         writers_agree(ctx, obj, xctx, {"model": type(obj).__name__, "obj": repr(obj)[:1500], "mixed": True},
                       ns_map=zoo.HOSTILE_MAPS[k % len(zoo.HOSTILE_MAPS)])
